@@ -37,107 +37,120 @@ example : TextString.IsBytes [0, 34, 92, 10, 0xC3, 0xA9, 0xFF, 0xED, 0xA0, 0x80,
 /-! ## 2. relative type names -/
 
 /-- The full-strength statement: whenever the target is declared, the printed name resolves to
-it. It is **false** of the code (recorded finding `refname-shadowed`). -/
+it. It is **false** of the code for references into another package (recorded finding
+`refname-shadowed`); for references inside one package it holds since the shadowing fix, see
+`C05_refname_same_package`. -/
 def C05_refname_resolves_full : Prop :=
   ∀ (t : RefName.Tab) (only : Bool) (ctxPkg ctx tgtPkg tgt : RefName.Path),
     RefName.SymtabWF t only tgtPkg tgt →
-    RefName.resolve t ctxPkg ctx only (RefName.refName ctxPkg ctx tgtPkg tgt) = some (tgtPkg ++ tgt)
+    RefName.resolveName t ctxPkg ctx only (RefName.refName t ctxPkg ctx tgtPkg tgt) = some (tgtPkg ++ tgt)
 
-/-- witness: `package gen.v1; message Gen { message Gen {}  .gen.v1.Gen n1 = 1; }` -/
+/-- witness: file of package `a.b` with `message M { b.X f = 1; }`, `X` declared in package `b`:
+the printed `b.X` is looked up as `a.b.X` because `a.b` is a package prefix in scope. -/
 def shadowTab : RefName.Tab :=
-  ⟨[⟨["gen", "v1", "Gen"], .msg⟩, ⟨["gen", "v1", "Gen", "Gen"], .msg⟩], [["gen", "v1"]]⟩
+  ⟨[⟨["a", "b", "M"], .msg⟩, ⟨["b", "X"], .msg⟩], [["a", "b"], ["b"]]⟩
 
 theorem C05_refname_counterexample : ¬ C05_refname_resolves_full := by
   intro h
-  have hw : RefName.SymtabWF shadowTab true ["gen", "v1"] ["Gen"] := by
+  have hw : RefName.SymtabWF shadowTab true ["b"] ["X"] := by
     refine ⟨by simp, ⟨.msg, by decide, by decide⟩, ?_, ?_⟩
     · intro j h1 h2; simp at h2; omega
     · intro i h1 h2
-      have : i = 1 ∨ i = 2 := by simp at h2; omega
-      rcases this with rfl | rfl <;> decide
-  have := h shadowTab true ["gen", "v1"] ["Gen"] ["gen", "v1"] ["Gen"] hw
+      have : i = 1 := by simp at h2; omega
+      subst this; decide
+  have := h shadowTab true ["a", "b"] ["M"] ["b"] ["X"] hw
   revert this
   decide
 
-/-- what the printed name of the witness resolves to: the nested message -/
-example : RefName.resolve shadowTab ["gen", "v1"] ["Gen"] true
-    (RefName.refName ["gen", "v1"] ["Gen"] ["gen", "v1"] ["Gen"]) = some ["gen", "v1", "Gen", "Gen"] := by decide
+/-- what the witness prints, and that the reader rejects it -/
+example : RefName.refName shadowTab ["a", "b"] ["M"] ["b"] ["X"] = ⟨false, ["b", "X"]⟩ ∧
+    RefName.resolveName shadowTab ["a", "b"] ["M"] true ⟨false, ["b", "X"]⟩ = none := by decide
 
-/-- Under `NoShadow` (no scope searched before the intended one declares the first component of
-the printed name — the decidable predicate that excludes exactly the recorded class) the printed
-name resolves to the target. Covers same-package references (shortened) and cross-package ones
-(package-qualified, no leading dot), field context (`only = true`) and method context. -/
+/-- **Inside one package the statement holds at full strength**: whatever else the file declares
+(nested or sibling types, fields, methods with the same name), the printed name — shortened, or
+fully qualified when an enclosing scope would capture it — resolves to the target. -/
+theorem C05_refname_same_package (t : RefName.Tab) (only : Bool) (pkg ctx tgt : RefName.Path)
+    (hwf : RefName.SymtabWF t only pkg tgt) :
+    RefName.resolveName t pkg ctx only (RefName.refName t pkg ctx pkg tgt) = some (pkg ++ tgt) := by
+  have hne := hwf.1
+  obtain ⟨kk, hk, hkt⟩ := hwf.2.1
+  unfold RefName.refName
+  simp only [ne_eq, not_true_eq_false, if_false]
+  have hdrop := RefName.stripCommon_eq_drop tgt ctx
+  have hlt := RefName.commonLen_lt_tgt tgt ctx hne
+  have hle := RefName.commonLen_le_ctx tgt ctx
+  cases hsc : RefName.stripCommon tgt ctx with
+  | nil =>
+    rw [hsc] at hdrop
+    have := congrArg List.length hdrop
+    simp at this; omega
+  | cons first rest =>
+    simp only []
+    have hk' : tgt.length - (first :: rest).length = RefName.commonLen tgt ctx := by
+      have := congrArg List.length hdrop
+      rw [hsc] at this
+      simp only [List.length_drop] at this
+      omega
+    rw [hk']
+    split
+    · -- captured by an enclosing scope: fully qualified
+      unfold RefName.resolveName
+      simp only [if_true, hk]
+      cases only with
+      | true => simp only [if_true] at hkt ⊢; simp [hkt]
+      | false => simp only [Bool.false_eq_true, if_false] at hkt ⊢; simp [hkt]
+    · rename_i hany
+      unfold RefName.resolveName
+      simp only [Bool.false_eq_true, if_false]
+      obtain ⟨outer, hsplit⟩ := RefName.scopes_split_same pkg ctx (RefName.commonLen tgt ctx) hle
+      apply RefName.resolve_of_split t only pkg ctx pkg tgt _ first rest _ outer hwf hsplit
+      · intro pre hpre
+        have hd : RefName.declares t pre first = false := by
+          simp only [List.any_eq_true, not_exists, not_and, Bool.not_eq_true] at hany
+          exact hany pre hpre
+        unfold RefName.declares at hd
+        unfold RefName.captures
+        cases hf : t.find (pre ++ [first]) with
+        | none => rfl
+        | some k => simp [hf] at hd
+      · rw [← RefName.take_commonLen tgt ctx, List.append_assoc, ← hsc, hdrop, List.take_append_drop]
+
+/-- Across packages the printed name is package-qualified without a leading dot; it resolves
+to the target under `NoShadow` (no scope searched before the root declares — or is a package
+prefix named like — the first package component). Together with the same-package theorem this is
+the statement for every reference; `NoShadow` is the decidable predicate that excludes exactly the
+recorded class. -/
 theorem C05_refname_resolves_partial (t : RefName.Tab) (only : Bool) (ctxPkg ctx tgtPkg tgt : RefName.Path)
     (hwf : RefName.SymtabWF t only tgtPkg tgt)
-    (hns : RefName.NoShadow t only ctxPkg ctx tgtPkg tgt = true) :
-    RefName.resolve t ctxPkg ctx only (RefName.refName ctxPkg ctx tgtPkg tgt) = some (tgtPkg ++ tgt) := by
-  obtain ⟨hne, ⟨k, hk, hkt⟩, hanc, hpk⟩ := hwf
-  obtain ⟨hA, hnn⟩ := RefName.home_append_refName ctxPkg ctx tgtPkg tgt hne
-  unfold RefName.NoShadow at hns
-  cases hname : RefName.refName ctxPkg ctx tgtPkg tgt with
-  | nil => exact absurd hname hnn
-  | cons first rest =>
-    rw [hname] at hns hA
-    simp only [List.all_eq_true, Bool.not_eq_true'] at hns
-    obtain ⟨outer, hsplit⟩ := RefName.split_at_mem (RefName.home ctxPkg ctx tgtPkg tgt) _
-      (RefName.home_mem_scopes ctxPkg ctx tgtPkg tgt)
-    unfold RefName.resolve
-    simp only []
-    rw [hsplit]
-    obtain ⟨best', hskip⟩ := RefName.resolveIn_skip t only first rest _
-      (RefName.home ctxPkg ctx tgtPkg tgt :: outer) none hns
-    rw [hskip]
-    -- at the home scope
-    have hfull : RefName.home ctxPkg ctx tgtPkg tgt ++ first :: rest = tgtPkg ++ tgt := hA
-    simp only [RefName.resolveIn, RefName.resolveRel]
-    by_cases hr : rest = []
-    · subst hr
-      have : RefName.home ctxPkg ctx tgtPkg tgt ++ [first] = tgtPkg ++ tgt := hfull
-      rw [this, hk]
-      simp only [if_true]
-      cases only with
-      | true =>
-        simp only [if_true] at hkt
-        simp [hkt]
-      | false =>
-        simp only [Bool.false_eq_true, if_false] at hkt
-        simp [hkt]
-    · -- the first component is a proper prefix of the target: a package prefix or an enclosing message
-      have hlen : (RefName.home ctxPkg ctx tgtPkg tgt).length + 1 < (tgtPkg ++ tgt).length := by
-        rw [← hfull]
-        have : 0 < rest.length := List.length_pos_iff.mpr hr
-        simp; omega
-      have hpre : RefName.home ctxPkg ctx tgtPkg tgt ++ [first] =
-          (tgtPkg ++ tgt).take ((RefName.home ctxPkg ctx tgtPkg tgt).length + 1) := by
-        rw [← hfull]
-        have e : RefName.home ctxPkg ctx tgtPkg tgt ++ first :: rest =
-            (RefName.home ctxPkg ctx tgtPkg tgt ++ [first]) ++ rest := by simp
-        rw [e, List.take_left' (by simp)]
-      have hagg : ∃ k', t.find (RefName.home ctxPkg ctx tgtPkg tgt ++ [first]) = some k' ∧ k'.isAggregate = true := by
-        rw [hpre]
-        have hmpos : 0 < (RefName.home ctxPkg ctx tgtPkg tgt).length + 1 := by omega
-        generalize (RefName.home ctxPkg ctx tgtPkg tgt).length + 1 = m at hlen hmpos
-        by_cases hmp : m ≤ tgtPkg.length
-        · refine ⟨.ns, ?_, rfl⟩
-          rw [List.take_append_of_le_length hmp]
-          exact hpk m hmpos hmp
-        · refine ⟨.msg, ?_, rfl⟩
-          have hj : (tgtPkg ++ tgt).take m = tgtPkg ++ tgt.take (m - tgtPkg.length) := by
-            rw [List.take_append]
-            have : tgtPkg.take m = tgtPkg := List.take_of_length_le (by omega)
-            rw [this]
-          rw [hj]
-          apply hanc
-          · omega
-          · simp at hlen; omega
-      obtain ⟨k', hk', hagg'⟩ := hagg
-      rw [hk', hfull, hk]
-      simp only [hr, if_false, hagg', Bool.not_true, Bool.false_eq_true]
-      have hcond : (!only || k.isType || decide (rest ≠ [])) = true := by simp [hr]
-      simp only [hcond, if_true]
-      cases only with
-      | true => simpa using hkt
-      | false => simpa using hkt
+    (hns : ctxPkg ≠ tgtPkg → RefName.NoShadow t only ctxPkg ctx tgtPkg tgt = true) :
+    RefName.resolveName t ctxPkg ctx only (RefName.refName t ctxPkg ctx tgtPkg tgt) = some (tgtPkg ++ tgt) := by
+  by_cases hp : ctxPkg = tgtPkg
+  · subst hp
+    exact C05_refname_same_package t only ctxPkg ctx tgt hwf
+  · have hns' := hns hp
+    have hne := hwf.1
+    obtain ⟨hA, hnn⟩ := RefName.home_append_shortName ctxPkg ctx tgtPkg tgt hne
+    have hshort : RefName.shortName ctxPkg ctx tgtPkg tgt = tgtPkg ++ tgt := by
+      unfold RefName.shortName; simp [hp]
+    have hrn : RefName.refName t ctxPkg ctx tgtPkg tgt = ⟨false, tgtPkg ++ tgt⟩ := by
+      unfold RefName.refName; simp [hp]
+    rw [hrn]
+    unfold RefName.resolveName
+    simp only [Bool.false_eq_true, if_false]
+    unfold RefName.NoShadow at hns'
+    rw [hshort] at hns' hA
+    cases hname : tgtPkg ++ tgt with
+    | nil => rw [hname] at hshort; exact absurd hshort hnn
+    | cons first rest =>
+      rw [hname] at hns' hA
+      simp only [List.all_eq_true, Bool.not_eq_true'] at hns'
+      obtain ⟨outer, hsplit⟩ := RefName.split_at_mem (RefName.home ctxPkg ctx tgtPkg tgt) _
+        (RefName.home_mem_scopes ctxPkg ctx tgtPkg tgt)
+      rw [← hname]
+      have hfull : RefName.home ctxPkg ctx tgtPkg tgt ++ first :: rest = tgtPkg ++ tgt := by
+        rw [hA, hname]
+      have := RefName.resolve_of_split t only ctxPkg ctx tgtPkg tgt _ first rest _ outer hwf hsplit hns' hfull
+      rw [hname]; rw [hname] at this; exact this
 
 /-! non-vacuity: a three-level file where the hypotheses hold and the name is really shortened -/
 
@@ -146,7 +159,7 @@ def okTab : RefName.Tab :=
     ⟨["q", "r", "X"], .msg⟩], [["p"], ["q", "r"]]⟩
 
 example : RefName.NoShadow okTab true ["p"] ["A", "D"] ["p"] ["A", "B", "C"] = true := by decide
-example : RefName.refName ["p"] ["A", "D"] ["p"] ["A", "B", "C"] = ["B", "C"] := by decide
+example : RefName.refName okTab ["p"] ["A", "D"] ["p"] ["A", "B", "C"] = ⟨false, ["B", "C"]⟩ := by decide
 example : RefName.SymtabWF okTab true ["p"] ["A", "B", "C"] := by
   refine ⟨by simp, ⟨.enum, by decide, by decide⟩, ?_, ?_⟩
   · intro j h1 h2
@@ -157,15 +170,23 @@ example : RefName.SymtabWF okTab true ["p"] ["A", "B", "C"] := by
     subst this; decide
 /-- cross-package reference, printed package-qualified -/
 example : RefName.NoShadow okTab true ["p"] ["A", "D"] ["q", "r"] ["X"] = true ∧
-    RefName.refName ["p"] ["A", "D"] ["q", "r"] ["X"] = ["q", "r", "X"] := by decide
+    RefName.refName okTab ["p"] ["A", "D"] ["q", "r"] ["X"] = ⟨false, ["q", "r", "X"]⟩ := by decide
 /-- self reference and reference to an ancestor keep the type's own name (fix b1156d6) -/
-example : RefName.refName ["p"] ["A", "B"] ["p"] ["A", "B"] = ["B"] ∧
-    RefName.refName ["p"] ["A", "B"] ["p"] ["A"] = ["A"] := by decide
+example : RefName.refName okTab ["p"] ["A", "B"] ["p"] ["A", "B"] = ⟨false, ["B"]⟩ ∧
+    RefName.refName okTab ["p"] ["A", "B"] ["p"] ["A"] = ⟨false, ["A"]⟩ := by decide
+
+/-- a nested declaration with the name of a sibling: the printer falls back to the leading-dot name
+(`message Gen { message Gen {}  .gen.v1.Gen n1 = 1; }`, the witness of the former finding) -/
+def nestedTab : RefName.Tab :=
+  ⟨[⟨["gen", "v1", "Gen"], .msg⟩, ⟨["gen", "v1", "Gen", "Gen"], .msg⟩], [["gen", "v1"]]⟩
+example : RefName.refName nestedTab ["gen", "v1"] ["Gen"] ["gen", "v1"] ["Gen"] = ⟨true, ["gen", "v1", "Gen"]⟩ ∧
+    RefName.resolveName nestedTab ["gen", "v1"] ["Gen"] true ⟨true, ["gen", "v1", "Gen"]⟩ = some ["gen", "v1", "Gen"] ∧
+    RefName.resolve nestedTab ["gen", "v1"] ["Gen"] true ["Gen"] = some ["gen", "v1", "Gen", "Gen"] := by decide
 
 /-- The printed name is never empty (the defect fixed by b1156d6 cannot come back unnoticed). -/
 theorem C05_refname_nonempty (ctxPkg ctx tgtPkg tgt : RefName.Path) (h : tgt ≠ []) :
-    RefName.refName ctxPkg ctx tgtPkg tgt ≠ [] :=
-  (RefName.home_append_refName ctxPkg ctx tgtPkg tgt h).2
+    RefName.shortName ctxPkg ctx tgtPkg tgt ≠ [] :=
+  (RefName.home_append_shortName ctxPkg ctx tgtPkg tgt h).2
 
 /-! ## 3. printing order -/
 
@@ -305,11 +326,11 @@ structure KFile where
 
 /-- what the printed text holds for them -/
 structure KText where
-  names : List (RefOcc × RefName.Path)   -- the scope an occurrence sits in, and the name written there
+  names : List (RefOcc × RefName.Name)   -- the scope an occurrence sits in, and the name written there
   lits : List (List Nat)
 
 def printK (f : KFile) : KText :=
-  ⟨f.refs.map (fun r => (r, RefName.refName r.ctxPkg r.ctx r.tgtPkg r.tgt)),
+  ⟨f.refs.map (fun r => (r, RefName.refName f.tab r.ctxPkg r.ctx r.tgtPkg r.tgt)),
    f.strings.map TextString.textString⟩
 
 def allSome {α} : List (Option α) → Option (List α)
@@ -325,7 +346,7 @@ validated differentially against protocompile by the `print.ref` / `print.str` s
 structure Reader where
   read : RefName.Tab → KText → Option (List RefName.Path × List (List Nat))
   spec : ∀ tab txt, read tab txt =
-    (match allSome (txt.names.map (fun (c, n) => RefName.resolve tab c.ctxPkg c.ctx c.only n)),
+    (match allSome (txt.names.map (fun (c, n) => RefName.resolveName tab c.ctxPkg c.ctx c.only n)),
            allSome (txt.lits.map TextString.unescape) with
      | some a, some b => some (a, b)
      | _, _ => none)
@@ -343,20 +364,21 @@ theorem allSome_map {α β} (f : α → Option β) (g : α → β) :
 /-- **Whole-file statement, partial.** For every reader that treats kernel outputs as assumed
 above: reading the printed file gives back every referenced type and every string value, provided
 each reference is well-formed and not shadowed. Partial because (i) the reader's grammar level is
-an assumption, (ii) `NoShadow` excludes the recorded finding `refname-shadowed`, (iii) comments,
+an assumption, (ii) for references into other packages `NoShadow` excludes the recorded finding
+`refname-shadowed:cross-package`, (iii) comments,
 layout, element order, numeric scalars and option structure are outside this statement (order and
 option trees have their own theorems above; the rest is covered by the `print.reparse` oracle). -/
 theorem C05_reparse_partial (R : Reader) (f : KFile)
     (hrefs : ∀ r ∈ f.refs, RefName.SymtabWF f.tab r.only r.tgtPkg r.tgt ∧
-      RefName.NoShadow f.tab r.only r.ctxPkg r.ctx r.tgtPkg r.tgt = true)
+      (r.ctxPkg ≠ r.tgtPkg → RefName.NoShadow f.tab r.only r.ctxPkg r.ctx r.tgtPkg r.tgt = true))
     (hstr : ∀ s ∈ f.strings, TextString.IsBytes s) :
     R.read f.tab (printK f) = some (f.refs.map (fun r => r.tgtPkg ++ r.tgt), f.strings) := by
   rw [R.spec]
   unfold printK
   simp only [List.map_map]
-  have h1 : allSome (f.refs.map ((fun (x : RefOcc × RefName.Path) =>
-      RefName.resolve f.tab x.1.ctxPkg x.1.ctx x.1.only x.2) ∘
-      fun r => (r, RefName.refName r.ctxPkg r.ctx r.tgtPkg r.tgt))) =
+  have h1 : allSome (f.refs.map ((fun (x : RefOcc × RefName.Name) =>
+      RefName.resolveName f.tab x.1.ctxPkg x.1.ctx x.1.only x.2) ∘
+      fun r => (r, RefName.refName f.tab r.ctxPkg r.ctx r.tgtPkg r.tgt))) =
       some (f.refs.map (fun r => r.tgtPkg ++ r.tgt)) := by
     apply allSome_map
     intro r hr
@@ -372,7 +394,7 @@ theorem C05_reparse_partial (R : Reader) (f : KFile)
 that result again reproduces the same text"). -/
 theorem C05_reprint_fixed (R : Reader) (f : KFile)
     (hrefs : ∀ r ∈ f.refs, RefName.SymtabWF f.tab r.only r.tgtPkg r.tgt ∧
-      RefName.NoShadow f.tab r.only r.ctxPkg r.ctx r.tgtPkg r.tgt = true)
+      (r.ctxPkg ≠ r.tgtPkg → RefName.NoShadow f.tab r.only r.ctxPkg r.ctx r.tgtPkg r.tgt = true))
     (hstr : ∀ s ∈ f.strings, TextString.IsBytes s)
     (tgts : List RefName.Path) (strs : List (List Nat))
     (hread : R.read f.tab (printK f) = some (tgts, strs)) :
@@ -388,13 +410,13 @@ theorem C05_reprint_fixed (R : Reader) (f : KFile)
 /-- the hypotheses are satisfiable: a file with one in-package, one cross-package reference and
 hard strings, and the reader defined by the specification itself -/
 def specReader : Reader :=
-  ⟨fun tab txt => match allSome (txt.names.map (fun (c, n) => RefName.resolve tab c.ctxPkg c.ctx c.only n)),
+  ⟨fun tab txt => match allSome (txt.names.map (fun (c, n) => RefName.resolveName tab c.ctxPkg c.ctx c.only n)),
       allSome (txt.lits.map TextString.unescape) with
     | some a, some b => some (a, b)
     | _, _ => none, fun _ _ => rfl⟩
 
 example : ∃ f : KFile, f.refs.length = 2 ∧ f.strings = [[0, 34, 0xFF], [0xC3, 0xA9]] ∧
-    (∀ r ∈ f.refs, RefName.NoShadow f.tab r.only r.ctxPkg r.ctx r.tgtPkg r.tgt = true) ∧
+    (∀ r ∈ f.refs, r.ctxPkg ≠ r.tgtPkg → RefName.NoShadow f.tab r.only r.ctxPkg r.ctx r.tgtPkg r.tgt = true) ∧
     (∀ s ∈ f.strings, TextString.IsBytes s) :=
   ⟨⟨okTab, [⟨true, ["p"], ["A", "D"], ["p"], ["A", "B", "C"]⟩, ⟨true, ["p"], ["A", "D"], ["q", "r"], ["X"]⟩],
     [[0, 34, 0xFF], [0xC3, 0xA9]]⟩, rfl, rfl, by decide, by decide⟩
